@@ -8,18 +8,20 @@ def sh(cmd, cwd):
     return p.returncode, p.stdout + p.stderr
 d = sys.argv[1]
 RUNNER = os.environ.get('MAMBACHECK_BIN', './run.sh')
+REPO = os.environ.get('EVAL_REPO', '/repo')
+env['MAMBA_REPO'] = REPO
 props = [c['property_id'] for c in json.load(open('/verif/MANIFEST.json'))['checks']]
-rc, st = sh('git status --short', '/repo'); assert st.strip() == '', '/repo dirty'
+rc, st = sh('git status --short', REPO); assert st.strip() == '', REPO + ' dirty'
 for diff in sorted(glob.glob(d + '/*.diff')):
-    rc, out = sh(f'git apply --check {diff}', '/repo')
+    rc, out = sh(f'git apply --check {diff}', REPO)
     threeway = False
     if rc != 0:
-        rc, out = sh(f'git apply --3way --check {diff}', '/repo'); threeway = rc == 0
+        rc, out = sh(f'git apply --3way --check {diff}', REPO); threeway = rc == 0
     if rc != 0:
         print(os.path.basename(diff), 'DOES NOT APPLY'); continue
-    sh(f'git apply {"--3way " if threeway else ""}{diff}', '/repo')
+    sh(f'git apply {"--3way " if threeway else ""}{diff}', REPO)
     try:
-        rcb, outb = sh('go build ./...', '/repo')
+        rcb, outb = sh('go build ./...', REPO)
         bad = []
         for p in props:
             rc, out = sh(f'{RUNNER} {p} quick', '/verif')
@@ -27,9 +29,9 @@ for diff in sorted(glob.glob(d + '/*.diff')):
                 lines = [l for l in out.splitlines() if l.startswith(('VIOLATION','BROKEN','ANALYSIS')) or '[' in l and ']' in l and ':' in l and not l.startswith(p+' ')]
                 bad.append((p, rc, lines[:6]))
     finally:
-        sh('git reset -q --hard HEAD && git clean -fdq', '/repo')
+        sh('git reset -q --hard HEAD && git clean -fdq', REPO)
     print(os.path.basename(diff), 'build_ok' if rcb == 0 else 'BUILD FAILS', 'ALL CHECKS PASS' if not bad else '')
     for p, rc, lines in bad:
         print('   ', p, 'exit', rc)
         for l in lines: print('       ', l[:260])
-rc, st = sh('git status --short', '/repo'); assert st.strip() == '', st
+rc, st = sh('git status --short', REPO); assert st.strip() == '', st
